@@ -657,6 +657,11 @@ class ITerm2Image(GraphicsImage, metaclass=ITerm2ImageMeta):
                     )
                 )
 
+        # Native animation is not applicable (a non-animated image or a single frame of
+        # an animation), hence the WHOLE render method is used instead.
+        if render_method == ANIM:
+            render_method = WHOLE
+
         width, height = (
             self._get_minimal_render_size()
             if render_method == WHOLE
